@@ -7,7 +7,8 @@ Static sufficient conditions over every .py under synapgrad/ (AST, re-read on ev
                                     Tensor.backward takes its order from lists (the visited set is membership-only)
   static.manual_seed_seeds_both     (O3) manual_seed(seed) unconditionally calls np.random.seed(seed) and random.seed(seed)
 Run time, bounded (vf/rtc/repro.py): manual_seed.bit_identical_rerun (same process, fresh interpreters under several PYTHONHASHSEED),
-  fixed_program.bit_identical_repeat (3 repetitions with garbage in between; also across the fresh interpreters).
+  fixed_program.bit_identical_repeat (3 repetitions with garbage in between; also across the fresh interpreters);
+  fixed_program.no_read_of_uninitialised_memory (vf/rtc/poison.py: np.empty/empty_like poisoned, the C10 operation catalogue forward + backward).
 """
 import json
 import os
@@ -45,7 +46,7 @@ def static_part(run):
                 clause = "time_or_entropy_argument"
             if clause:
                 run.violation("static.no_unseeded_rng", "%s line %d: %s (%s)" % (s["where"], s["line"], s["callee"], clause),
-                              key={"where": s["where"], "api": s["api"], "clause": clause}, replay={"static": s})
+                              key={"where": s["where"], "api": s["api"], "clause": clause}, replay={"static": s, "verifier_output": s}, reproduced=False)
             else:
                 n_ok += 1
     run.add_counts(obligations=len(sites), discharged=n_ok, backend="static-ast")
@@ -57,7 +58,7 @@ def static_part(run):
     run.add_counts(obligations=1, discharged=0 if ms["missing"] else 1, backend="static-ast")
     if ms["missing"]:
         run.violation("static.manual_seed_seeds_both", "manual_seed does not unconditionally seed %s with its argument" % ms["missing"],
-                      key={"where": ms["where"], "clause": "generator_not_seeded", "api": ",".join(ms["missing"])}, replay={"static": ms})
+                      key={"where": ms["where"], "clause": "generator_not_seeded", "api": ",".join(ms["missing"])}, replay={"static": ms, "verifier_output": ms}, reproduced=False)
     # ---- O2
     exempt_problems = S.visual_is_presentational(files)
     exempt, n_files_ok = [], 0
@@ -68,18 +69,18 @@ def static_part(run):
             uses = []
         for u in uses:
             run.violation("static.no_set_iteration", "%s line %d: %s (%s)" % (u["where"], u["line"], u["clause"], u["name"]),
-                          key={"where": u["where"], "clause": u["clause"], "name": u["name"]}, replay={"static": u})
+                          key={"where": u["where"], "clause": u["clause"], "name": u["name"]}, replay={"static": u, "verifier_output": u}, reproduced=False)
         n_files_ok += 0 if uses else 1
     run.add_counts(obligations=len(files), discharged=n_files_ok, backend="static-ast")
     for p in exempt_problems:
         run.violation("static.no_set_iteration", "synapgrad/visual is not purely presentational: %s line %d %s" % (p["where"], p["line"], p["clause"]),
-                      key=p, replay={"static": p})
+                      key=p, replay={"static": p, "verifier_output": p}, reproduced=False)
     run.extra["static_presentational_exempt"] = exempt
     bo = S.backward_order()
     run.add_counts(obligations=1, discharged=0 if bo["bad"] else 1, backend="static-ast")
     for b in bo["bad"]:
         run.violation("static.no_set_iteration", "%s: loop over `%s` does not take its order from a list / _children tuple" % (b["where"], b["name"]),
-                      key=b, replay={"static": bo})
+                      key=b, replay={"static": bo, "verifier_output": bo}, reproduced=False)
     run.extra["static_backward_loops"] = bo["loops"]
     run.sample({"static": "random call sites", "sites": sites})
 
@@ -95,6 +96,33 @@ def fresh(seed, hashseed):
     if p.returncode or line is None:
         raise RuntimeError("fresh interpreter failed (exit %s): %s" % (p.returncode, p.stderr[-800:]))
     return cmd, json.loads(line[7:])
+
+
+def poisoned(run, seed):
+    """uninitialised allocations filled with NaN / a sentinel in a child interpreter, then the operation catalogue forward + backward (vf/rtc/poison.py)"""
+    import synapgrad
+    env = dict(os.environ)
+    repo = os.path.dirname(os.path.dirname(os.path.abspath(synapgrad.__file__)))
+    env.update(PYTHONPATH=os.pathsep.join([repo, ROOT]), PYTHONDONTWRITEBYTECODE="1")
+    cmd = "PYTHONPATH=%s %s -m vf.rtc.poison %d" % (env["PYTHONPATH"], sys.executable, seed)
+    p = subprocess.run([sys.executable, "-m", "vf.rtc.poison", str(seed)], cwd=ROOT, env=env, capture_output=True, text=True, timeout=600)
+    line = next((l for l in reversed(p.stdout.splitlines()) if l.startswith("RESULT ")), None)
+    if p.returncode or line is None:
+        raise RuntimeError("poisoned-allocation run failed (exit %s): %s" % (p.returncode, p.stderr[-800:]))
+    res = json.loads(line[7:])
+    run.rt(("poisoned-allocations",), n=res["evaluations"])
+    run.extra["poisoned_allocation_evaluations"] = res["evaluations"]
+    if res["evaluations"] < 100:
+        run.error("poisoned-allocation run evaluated only %d configurations" % res["evaluations"])
+    seen = set()
+    for f in res["failures"]:
+        if (f["api"], f["where"].split(" ")[0]) in seen:
+            continue
+        seen.add((f["api"], f["where"].split(" ")[0]))
+        run.violation("fixed_program.no_read_of_uninitialised_memory", "%s [%s, %s]: the %s contains values of an uninitialised buffer (np.empty/empty_like poisoned with NaN): "
+                      "what a user gets there depends on the heap layout and on earlier computations [%d failing configurations]" %
+                      (f["api"], f["pattern"], f["dtype"], f["where"], res["n_failures"]), key={"api": f["api"], "clause": "uninitialised_read", "where": f["where"].split(" ")[0]},
+                      replay={"cmd": cmd, "case": f})
 
 
 def compare(run, obligation, ref, other, key, what, replay):
@@ -149,6 +177,7 @@ def runtime_part(run, tier, procs):
         if len(hashes_seen) < 2:
             run.error("non-vacuity: hash('synapgrad') was the same in all fresh interpreters - PYTHONHASHSEED did not take effect")
         run.extra["fresh_interpreters"] = ["seed=%d PYTHONHASHSEED=%s" % (sd, hs) for sd, hs, _ in futures]
+    poisoned(run, 0)
 
 
 def main(tier="quick", seed=0, procs=None, only=None):
